@@ -98,7 +98,7 @@ def gen_case(rng):
         stores = ['t1'] + (['t2'] if n_params == 2 else []) + stores       # ALL parameters
     steps = ['fill']
     for _ in range(rng.randint(1, 4)):
-        steps.append(rng.choice(['rerun', 'extend', 'add-store', 'remove-store', 'replace-summary', 'replace-distance', 'reopen']))
+        steps.append(rng.choice(['rerun', 'extend', 'add-store', 'remove-store', 'replace-summary', 'replace-distance', 'reopen', 'clear']))
     return dict(n_params=n_params, hier=rng.random() < .5, n_sum=n_sum, stores=stores, disk=rng.random() < .4,
                 b=rng.randint(1, 5), seed=rng.randrange(2**31), steps=steps, fill=rng.randint(1, 4))
 
@@ -112,6 +112,19 @@ def drop(st):
         st.close()
 
 
+def check_refusal(ctx, m, pool, case, when):
+    """a pool that has a context refuses another batch_size / seed - whether or not it holds batches yet"""
+    for kw in (dict(batch_size=case['b'] + 1, seed=case['seed']), dict(batch_size=case['b'], seed=case['seed'] + 1)):
+        try:
+            elfi.Rejection(m['d'], pool=pool, **kw)
+            ctx.fail_input(dict(case, refuse=kw, when=when), 'a pool accepted a batch_size/seed different from the one it was created with (%s)' % when)
+            return False
+        except ValueError:
+            pass
+    ctx.count('refusal', when)
+    return True
+
+
 def one(ctx, case, tmp, reqs, meta):
     calls = Calls()
     stag = dtag = 0
@@ -121,6 +134,15 @@ def one(ctx, case, tmp, reqs, meta):
     else:
         pool = elfi.OutputPool(list(case['stores']))
     ctx.case(case, any(s != 'fill' for s in case['steps']))
+    elfi.Rejection(m['d'], batch_size=case['b'], seed=case['seed'], pool=pool)          # sets the pool's context; nothing stored yet
+    if not check_refusal(ctx, m, pool, case, 'empty pool with a context'):
+        return
+    if case['disk'] and case['seed'] % 3 == 0:
+        pool.save()
+        pool.close()
+        pool = elfi.ArrayPool.open(pool.name, prefix=tmp)
+        if not check_refusal(ctx, m, pool, case, 'empty pool saved and reopened'):
+            return
     ctx.count('pool.kind', 'ArrayPool' if case['disk'] else 'OutputPool')
     ctx.count('stores', '+'.join(case['stores']))
     nb = case['fill']
@@ -153,6 +175,10 @@ def one(ctx, case, tmp, reqs, meta):
                 st = pool.remove_store('d')
                 drop(st)
             m = make_model(case, calls, stag, dtag)
+        elif step == 'clear':
+            pool.clear()
+            if not check_refusal(ctx, m, pool, case, 'pool cleared'):
+                return
         elif step == 'reopen' and case['disk']:
             pool.save()
             pool.close()
@@ -227,12 +253,7 @@ def one(ctx, case, tmp, reqs, meta):
             ran = sorted(rk[n] for n, b2 in log_pool if b2 == bi)
             meta.append((dict(where, batch=bi, supplied=supplied), ran, rk))
     # context refusal
-    for kw in (dict(batch_size=case['b'] + 1, seed=case['seed']), dict(batch_size=case['b'], seed=case['seed'] + 1)):
-        try:
-            elfi.Rejection(m['d'], pool=pool, **kw)
-            ctx.fail_input(dict(case, refuse=kw), 'a pool accepted a batch_size/seed different from the one it was created with')
-        except ValueError:
-            pass
+    check_refusal(ctx, m, pool, case, 'filled pool')
     if isinstance(pool, elfi.ArrayPool):
         pool.close()
     else:
